@@ -149,3 +149,120 @@ Example C11_example_history :
   hist_ok h /\ inv mem_new /\
   ctx (run mem_new h) = [0;0;0;7] ++ zeros 92.
 Proof. vm_compute. repeat split; try discriminate; try (intros n E; inversion E; subst; discriminate). Qed.
+
+(* ================================================================ composition with the reference
+   interpreter of C01 (Model/Step.v + Model/Evm.v, whose memory instructions are Model/Memory.v's
+   functions).  Proofs in Proofs/EvmMiscMemory.v.
+   In Model/Evm.v every frame owns its memory value: a child is started on [mem_new] and the
+   caller's state is kept aside while the child runs, so "a child cannot change the parent's
+   memory" holds BY CONSTRUCTION of the interpreter (that revm's single shared buffer behaves this
+   way is C11_child_frame_restores_parent above).  The content of the composition is: alignment and
+   growth along a frame for every instruction, zero-filled growth, and the return-data window.
+   [mem_ok m]: no open context, last_checkpoint 0, size a multiple of 32.
+   [reach] / [frame_reach]: the states a run executes from, in any frame / in the frame itself. *)
+From RevmV Require Import Model.Step Model.Evm Proofs.EvmProofs Proofs.EvmMiscProofs Proofs.EvmMiscMemory.
+
+(* a frame starts on empty memory — the transaction's first frame and every child *)
+Theorem C11_interpreter_frames_start_empty :
+  forall W G Gc Fc Ic,
+    (forall gl, i_mem (istate_new gl) = M.mem_new /\ M.mlen (i_mem (istate_new gl)) = 0 /\ mem_ok (i_mem (istate_new gl))) /\
+    (forall c, call_child W G c = Some (Gc, Fc, Ic) -> i_mem Ic = M.mem_new) /\
+    (forall c, create_child W G c = Some (Gc, Fc, Ic) -> i_mem Ic = M.mem_new).
+Proof.
+  intros W G Gc Fc Ic. split; [intros gl; split; [reflexivity|split; [reflexivity|apply mem_ok_new]]|].
+  split; intros c E; [apply call_child_new in E|apply create_child_new in E]; destruct E as [-> _]; reflexivity.
+Qed.
+
+(* every instruction, whatever its outcome: the memory stays a word-aligned frame memory and its
+   size does not decrease *)
+Theorem C11_interpreter_instruction_keeps_memory_aligned :
+  forall W G F I G' x,
+    step W G F I = (G', x) -> mem_ok (i_mem I) ->
+    match x with
+    | SNext I' | SEnd _ _ I' | SCall _ I' | SCreate _ I' =>
+        mem_ok (i_mem I') /\ M.mlen (i_mem I) <= M.mlen (i_mem I')
+    | SBad _ => True
+    end.
+Proof. exact step_mem_ok. Qed.
+
+(* the size changes only through resize_memory! (mem_resize, call_mem and LOG in Step.v), and
+   what it appends is zero — the composition of C11_growth_is_zero_filled *)
+Theorem C11_interpreter_growth_is_zero_filled :
+  forall m g off len m' g' c,
+    M.resize_macro m g off len = Some (m', g', c) -> mem_ok m ->
+    mem_ok m' /\ M.mlen m <= M.mlen m' /\ M.ctx m' = M.ctx m ++ M.zeros (M.mlen m' - M.mlen m).
+Proof. exact resize_macro_grow. Qed.
+
+(* along one frame — its own instructions and complete calls / creates, whatever the children
+   did at any depth — the memory never shrinks and stays word-aligned *)
+Theorem C11_interpreter_frame_memory_only_grows :
+  forall W f G F I Gx Ix,
+    frame_reach W f G F I Gx Ix -> mem_ok (i_mem I) ->
+    mem_ok (i_mem Ix) /\ M.mlen (i_mem I) <= M.mlen (i_mem Ix).
+Proof. exact frame_memory_grows. Qed.
+
+(* every state of every frame of a run has a word-aligned frame memory *)
+Theorem C11_interpreter_memory_invariant :
+  forall W f G F I Gx Fx Ix,
+    reach W f G F I Gx Fx Ix -> mem_ok (i_mem I) -> mem_ok (i_mem Ix).
+Proof. exact reach_mem_ok. Qed.
+
+(* THE RETURN-DATA WINDOW: when the caller resumes after a call, its memory has the same size and
+   is  old prefix ++ copied return data ++ old suffix, the copy sitting at ret_off with length
+   min(ret_len, |return data|); nothing at all changes when that is empty or the child neither
+   succeeded nor reverted (halt: no copy) *)
+Theorem C11_interpreter_call_changes_only_the_return_window :
+  forall I c r I2,
+    insert_call_outcome I c r = Some I2 -> mem_ok (i_mem I) ->
+    let v := firstn (Z.to_nat (Z.min (cq_ret_len c) (Step.zlen (ir_out r)))) (ir_out r) in
+    mem_ok (i_mem I2) /\ M.mlen (i_mem I2) = M.mlen (i_mem I) /\
+    ((v = [] \/ (is_ok (ir_res r) || is_revert (ir_res r)) = false) /\ M.ctx (i_mem I2) = M.ctx (i_mem I) \/
+     (v <> [] /\ (is_ok (ir_res r) || is_revert (ir_res r)) = true /\
+      0 <= cq_ret_off c /\ cq_ret_off c + Step.zlen v <= M.mlen (i_mem I) /\
+      M.ctx (i_mem I2) = M.zfirstn (cq_ret_off c) (M.ctx (i_mem I)) ++ v ++
+                         M.zskipn (cq_ret_off c + Step.zlen v) (M.ctx (i_mem I)))).
+Proof. exact call_outcome_memory. Qed.
+
+(* the same byte by byte: outside [ret_off, ret_off + min(ret_len, |return data|)) every byte is
+   what it was before the call; inside, it is the old byte (no copy) or the return data *)
+Theorem C11_interpreter_bytes_outside_window_unchanged :
+  forall I c r I2,
+    insert_call_outcome I c r = Some I2 -> mem_ok (i_mem I) ->
+    let n := Z.min (cq_ret_len c) (Step.zlen (ir_out r)) in
+    forall j : nat,
+      (Z.of_nat j < cq_ret_off c \/ cq_ret_off c + Z.max n 0 <= Z.of_nat j ->
+         nth j (M.ctx (i_mem I2)) 0 = nth j (M.ctx (i_mem I)) 0) /\
+      (cq_ret_off c <= Z.of_nat j < cq_ret_off c + n ->
+         nth j (M.ctx (i_mem I2)) 0 = nth j (M.ctx (i_mem I)) 0 \/
+         nth j (M.ctx (i_mem I2)) 0 = nth (j - Z.to_nat (cq_ret_off c)) (ir_out r) 0).
+Proof. exact call_outcome_bytes. Qed.
+
+(* a create leaves the caller's memory exactly as it was *)
+Theorem C11_interpreter_create_leaves_memory :
+  forall I r a I2, insert_create_outcome I r a = Some I2 -> i_mem I2 = i_mem I.
+Proof. exact create_outcome_memory. Qed.
+
+(* non-vacuity: MSTORE8 at 33 grows an empty memory to 64 zero-initialised bytes; a call returning
+   5 bytes into the window (30, 3) of a 64-byte memory changes bytes 30..32 only *)
+Definition ex11_code : list Z := [0x60; 0xff; 0x60; 33; 0x53; 0x00].
+Definition ex11_caller : istate := mkI 0 [] (M.resize M.mem_new 64) (Gas.gas_new 100) [].
+Definition ex11_call : callreq := mkCall SchCall 0 0x2000 0x1000 0x2000 0 true false [] 30 3.
+Example C11_interpreter_example :
+  let W := mx_world ex11_code in let F := mx_frame ex11_code in let G := gstate_new W in
+  mem_ok (i_mem ex11_caller) /\
+  (exists I', step W G F (mkI 4 [33; 0xff] M.mem_new (Gas.gas_new 100) []) = (G, SNext I') /\
+              M.ctx (i_mem I') = M.zeros 33 ++ [0xff] ++ M.zeros 30) /\
+  (exists I2, insert_call_outcome ex11_caller ex11_call (mkIR R_Return [1;2;3;4;5] (Gas.gas_new 0)) = Some I2 /\
+              M.ctx (i_mem I2) = M.zeros 30 ++ [1;2;3] ++ M.zeros 31 /\ i_stk I2 = [1]) /\
+  (exists I2, insert_call_outcome ex11_caller ex11_call (mkIR R_OutOfGas [1;2;3;4;5] (Gas.gas_new 0)) = Some I2 /\
+              M.ctx (i_mem I2) = M.zeros 64) /\
+  (exists Gx Ix, frame_reach W 3 G F (istate_new 100) Gx Ix /\ M.mlen (i_mem Ix) = 64).
+Proof.
+  intros W F G. split; [split; [reflexivity|split; reflexivity]|]. split; [|split; [|split]].
+  - eexists. split; vm_compute; reflexivity.
+  - eexists. split; [vm_compute; reflexivity|]. split; vm_compute; reflexivity.
+  - eexists. split; vm_compute; reflexivity.
+  - eexists. eexists. split.
+    + do 3 (eapply FNext; [vm_compute; reflexivity|]). apply FHere.
+    + vm_compute. reflexivity.
+Qed.
